@@ -105,13 +105,13 @@ var floors = map[string][]string{
 	"C01": {"combo:", "start:mid-file", "start:4"},
 	"C02": {"unit:TxXID", "unit:TxRollback", "unit:Rotate", "unit:Restart", "rollback-empty-delivery", "metamorphic-equal"},
 	"C03": {"history:rotation", "history:large-offsets", "resumed", "chain:rotate-between", "label:offset>=2^31"},
-	"C04": {"fault:fin", "fault:rst", "fault:err", "fault:eof", "fault:cancel-master", "fault:cancel-handler", "fault:handler-err", "fault:mapper-err", "fault:mapper-count", "fault:inject-rowsquery", "fault:inject-invalid", "fault:short0", "fault:badseq", "fault:connect-refused", "fault:read-error", "fault:inject-baddecode-before", "fault:inject-baddecode-write"},
+	"C04": {"fault:fin", "fault:rst", "fault:err", "fault:eof", "fault:cancel-master", "fault:cancel-handler", "fault:handler-err", "fault:mapper-err", "fault:mapper-count", "fault:inject-rowsquery", "fault:inject-invalid", "fault:short0", "fault:badseq", "fault:connect-refused", "fault:read-error", "fault:inject-baddecode-before", "fault:inject-baddecode-write", "fault:inject-hdronly-tablemap", "fault:inject-hdronly-rows", "fault:inject-hdronly-query"},
 	"C05": {"reader:network", "reader-busy-at-stop", "handler-at-stop:blocked", "handler-at-stop:slow", "quiescent", "cause:cancel", "cause:handler", "cause:preconnect", "cause:transport", "cause:master-err", "cause:eof", "cause:undecodable-event", "cell:cancel/reader=network", "long-history-with-packets>4096"},
 	"C06": {"cause:cancel", "cause:eof", "cause:master-err", "cause:transport", "cause:handler", "cause:mapper", "cause:gate-reject", "cause:unsupported-event", "cause:undecodable-event", "cause:preconnect", "err-message-carried", "error-call:immediately", "error-call:after-quiescence", "deadline-passed-between-end-and-Error()"},
 	"C07": {"attempt:position-set", "attempt:stored-position", "server-id>=2^31", "set-rejected", "stored-position-after-stream", "failed-before-dump:dump-write-fail", "failed-before-dump:set-close"},
 	"C08": {"mode:observe", "mode:scribble"},
 	"C15": {"stream:id-rebound-after-restart", "stream:id-rebound-to-name-differing-in-case-only", "stream:id-reannounced-with-other-column-count", "stream:hundreds-of-table-ids"},
-	"C17": {"gate:structured", "gate:random-valid", "gate:random-invalid", "gate:truncated-or-extended-events", "stream:inject:empty", "stream:inject:truncated-by-1", "stream:inject:random", "stream:inject:first-13", "stream:inject:first-16"},
+	"C17": {"gate:structured", "gate:random-valid", "gate:random-invalid", "gate:truncated-or-extended-events", "stream:inject:empty", "stream:inject:truncated-by-1", "stream:inject:random", "stream:inject:first-13", "stream:inject:first-16", "stream:inject:gv-header-only", "stream:inject:gv-random-body"},
 	"C10": {"e2e:values-compared"},
 	"C11": {"e2e:values-compared"},
 	"C12": {"e2e:values-compared", "tz=", "time.Local-set-by-the-program-after-start"},
